@@ -228,11 +228,11 @@ void list_output_86000(
 
     if (cycles_min < 0)
     {
-      fprintf(asm_context->list, "?");
+      fprintf(asm_context->list, "?\n");
     }
       else
     {
-      fprintf(asm_context->list, "%d", cycles_min);
+      fprintf(asm_context->list, "%d\n", cycles_min);
     }
 
     start += count;
@@ -280,11 +280,11 @@ void disasm_range_86000(
 
     if (cycles_min < 0)
     {
-      printf("?");
+      printf("?\n");
     }
       else
     {
-      printf("%d", cycles_min);
+      printf("%d\n", cycles_min);
     }
 
     start += count;
